@@ -16,8 +16,12 @@ fn make_ctx(id: &str, tier: Tier, strict: bool) -> Ctx {
         .ok()
         .and_then(|s| s.parse().ok())
         .unwrap_or_else(|| std::thread::available_parallelism().map(|n| n.get()).unwrap_or(4).min(16));
-    let scratch = PathBuf::from(format!("/dev/shm/hv-{}", std::process::id()));
-    let _ = std::fs::create_dir_all(&scratch);
+    let mut scratch = PathBuf::from(format!("/dev/shm/hv-{}", std::process::id()));
+    if std::fs::create_dir_all(&scratch).is_err() || std::fs::write(scratch.join(".probe"), b"x").is_err() {
+        // no usable tmpfs: fall back to the (git-ignored) build directory of /verif
+        scratch = verif.join(format!("target/scratch/hv-{}", std::process::id()));
+        let _ = std::fs::create_dir_all(&scratch);
+    }
     Ctx { id: id.to_string(), tier, seed, workers, known: load_known(&verif), verif, scratch, strict }
 }
 
